@@ -22,9 +22,10 @@ from . import pyfacts as pf
 from . import pyval
 from . import alpha
 
-A = ("C01",)
+MODULE_BODY = "<module>"
 CURATED = {
     "weights": {
+        MODULE_BODY: ("C02",),
         "Dispersion.__init__": ("C02",), "Dispersion.set_weights": ("C02",),
         "Dispersion.get_weights": ("C01", "C02", "C05", "C06", "C07", "C10", "C14",), "Dispersion._linspace": ("C01", "C02"),
         "GaussianDispersion._weights": ("C02",), "UniformDispersion._weights": ("C02",), "RectangleDispersion._weights": ("C02",),
@@ -33,6 +34,7 @@ CURATED = {
         "get_weights": ("C01", "C02", "C05", "C07", "C10", "C14",),
     },
     "resolution": {
+        MODULE_BODY: ("C03", "C04"),
         "Perfect1D.__init__": ("C03",), "Perfect1D.apply": ("C03",), "Pinhole1D.__init__": ("C03", "C04"), "Pinhole1D.apply": ("C03",),
         "Slit1D.__init__": ("C03", "C04"), "Slit1D.apply": ("C03",), "apply_resolution_matrix": ("C03",),
         "pinhole_resolution": ("C03", "C04"), "slit_resolution": ("C03", "C04"), "_q_perp_weights": ("C03", "C04"),
@@ -40,31 +42,37 @@ CURATED = {
         "linear_extrapolation": ("C03",), "geometric_extrapolation": ("C03",),
     },
     "resolution2d": {
+        MODULE_BODY: ("C03", "C04"),
         "Pinhole2D.__init__": ("C03", "C04"), "Pinhole2D._init_data": ("C03", "C04", "C11"), "Pinhole2D._calc_res": ("C03", "C04"),
         "Pinhole2D.apply": ("C03", "C04"), "Slit2D.__init__": ("C03",), "Slit2D.apply": ("C03",),
     },
-    "sesans": {"SesansTransform.__init__": ("C19",), "SesansTransform.apply": ("C19",), "SesansTransform._set_hankel": ("C19",)},
+    "sesans": {MODULE_BODY: ("C19",), "SesansTransform.__init__": ("C19",), "SesansTransform.apply": ("C19",), "SesansTransform._set_hankel": ("C19",)},
     "kernel": {"Kernel.Iq": ("C01", "C05", "C06", "C07", "C08", "C09", "C11", "C16",), "Kernel.Fq": ("C01", "C05", "C06", "C07", "C08", "C09", "C11", "C14", "C16",)},
     "product": {
+        MODULE_BODY: ("C07",),
         "make_extra_pars": ("C07",), "make_product_info": ("C07",), "_intermediates": ("C07",), "ProductModel.__init__": ("C07",),
         "ProductModel.make_kernel": ("C07",), "ProductKernel.__init__": ("C07", "C08"), "ProductKernel.Iq": ("C07", "C08", "C11",),
     },
     "mixture": {
+        MODULE_BODY: ("C08",),
         "make_mixture_info": ("C08",), "MixtureModel.__init__": ("C08",), "MixtureModel.make_kernel": ("C08",), "_intermediates": ("C08",),
         "MixtureKernel.__init__": ("C08",), "MixtureKernel.Iq": ("C08", "C11",), "_MixtureParts.__init__": ("C08",), "_MixtureParts.__next__": ("C08",),
         "_MixtureParts._part_details": ("C08",), "_MixtureParts._part_values": ("C08",),
     },
     "direct_model": {
-        "call_kernel": ("C01", "C05", "C06", "C07", "C08", "C09", "C10", "C16",), "call_Fq": ("C07", "C09", "C11", "C14", "C16",), "get_mesh": ("C01", "C02", "C05", "C06", "C07", "C08", "C09", "C10", "C11", "C14", "C16",), "_pop_par_weights": ("C01", "C02", "C05", "C06", "C07", "C08", "C10", "C11", "C14",),
+        MODULE_BODY: ("C10",),
+        "call_kernel": ("C01", "C05", "C06", "C07", "C08", "C09", "C10", "C14", "C16",), "call_Fq": ("C07", "C09", "C11", "C14", "C16",), "get_mesh": ("C01", "C02", "C05", "C06", "C07", "C08", "C09", "C10", "C11", "C14", "C16",), "_pop_par_weights": ("C01", "C02", "C05", "C06", "C07", "C08", "C10", "C11", "C14",),
         "_make_sesans_transform": ("C19",), "DataMixin._interpret_data": ("C03", "C10"), "DataMixin._calc_theory": ("C03", "C07", "C10", "C11", "C19",),
         "DirectModel.__init__": ("C10",), "DirectModel.__call__": ("C10",), "_direct_calculate": ("C10",), "Iq": ("C10",), "Iqxy": ("C10",),
         "Gxi": ("C10", "C19"),
     },
     "details": {
+        MODULE_BODY: ("C01",),
         "CallDetails.__init__": ("C01", "C05", "C06", "C07",), "make_details": ("C01", "C05", "C06", "C07", "C08", "C09", "C14",), "make_kernel_args": ("C01", "C05", "C06", "C07", "C08", "C09", "C10", "C11", "C14", "C16",),
         "correct_theta_weights": ("C01", "C05",), "convert_magnetism": ("C06", "C08",), "dispersion_mesh": ("C01", "C10"),
     },
     "kerneldll": {
+        MODULE_BODY: ("C17", "C18"),
         # make_dll and compile_model are judged by the structural rules of C15/C17/C18 only: temporary-file naming, compiler
         # flags and directory handling may change without touching any property
         "dll_name": ("C15", "C17", "C18",), "dll_path": ("C17", "C18",), "load_dll": ("C15", "C17", "C18"),
@@ -72,10 +80,14 @@ CURATED = {
         "DllKernel.__init__": ("C01", "C11"),
     },
     "kernelpy": {
-        "PyModel.make_kernel": ("C09",), "PyInput.__init__": ("C01", "C09",), "PyKernel.__init__": ("C01", "C09", "C11",), "PyKernel._call_kernel": ("C01", "C06", "C09", "C11", "C14",),
+        MODULE_BODY: ("C09",),
+        "PyModel.make_kernel": ("C09",), "PyInput.__init__": ("C01", "C09", "C11", "C15",), "PyKernel.__init__": ("C01", "C09", "C11",), "PyKernel._call_kernel": ("C01", "C06", "C09", "C11", "C14",),
         "_loops": ("C01", "C09", "C11", "C14",), "_create_default_functions": ("C09",), "_create_vector_Iq": ("C09",), "_create_vector_Iqxy": ("C09",),
     },
     "sasview_model": {
+        MODULE_BODY: ("C10", "C11"),
+        "SasviewModel.__init__": ("C10",), "_generate_model_attributes": ("C10",), "make_model_from_info": ("C10",),
+        "load_custom_model": ("C17",), "_make_standard_model": ("C10",),
         "SasviewModel.setParam": ("C10",), "SasviewModel.getParam": ("C10",), "SasviewModel.clone": ("C11",), "SasviewModel.run": ("C10",),
         "SasviewModel.runXY": ("C10",), "SasviewModel.evalDistribution": ("C10",), "SasviewModel.calculate_Iq": ("C10", "C11",),
         "SasviewModel._calculate_Iq": ("C10", "C11"), "SasviewModel.set_dispersion": ("C10",), "SasviewModel._get_weights": ("C02", "C05", "C10",),
@@ -86,6 +98,7 @@ CURATED = {
     },
     "core": {"build_model": ("C15", "C17"), "parse_dtype": ("C15",), "reparameterize": ("C16",), "load_model": ("C17",), "load_model_info": ("C17",)},
     "generate": {
+        MODULE_BODY: ("C15", "C17"),
         "tag_source": ("C17",), "convert_type": ("C15",), "_convert_type": ("C15",), "_fix_tgmath_int": ("C15",), "_tag_float": ("C15",),
         "_split_translation": ("C16",), "_build_translation": ("C16",), "_build_translation_vars": ("C16",), "_build_validity_check": ("C16",),
         "find_xy_mode": ("C09",), "contains_Fq": ("C09", "C14"), "contains_shell_volume": ("C09",), "_gen_fn": ("C09",), "_call_pars": ("C09", "C16"),
@@ -97,6 +110,7 @@ CURATED = {
         "ParameterTable._get_defaults": ("C10",), "make_model_info": ("C09", "C16",), "derive_table": ("C16",), "_insert_after": ("C16",), "_simple_insert": ("C16",),
     },
     "convert": {
+        MODULE_BODY: ("C20",),
         "_rescale": ("C20",), "_is_sld": ("C20",), "_rescale_sld": ("C20",), "_get_translation_table": ("C20",), "_dot_pd_to_underscore_pd": ("C20",),
         "_pd_to_underscores": ("C20",), "_convert_pars": ("C20",), "_conversion_target": ("C20",), "_hand_convert": ("C20",), "_rename_magnetic": ("C20",),
         "_rename_magnetic_pars": ("C20",), "_rename_magnetic_angles": ("C20",), "_hand_convert_3_1_2_to_4_1": ("C20",), "convert_model": ("C20",),
@@ -106,7 +120,7 @@ CURATED = {
         "empty_data1D": ("C10",), "empty_data2D": ("C10",), "empty_sesans": ("C10", "C19"), "set_beam_stop": ("C10",), "set_half": ("C10",),
         "set_top": ("C10",),
     },
-    "custom/__init__": {"load_custom_kernel_module": ("C17",), "load_module_from_path": ("C17",), "need_reload": ("C17",)},
+    "custom/__init__": {MODULE_BODY: ("C17",), "load_custom_kernel_module": ("C17",), "load_module_from_path": ("C17",), "need_reload": ("C17",)},
 }
 
 _BODIES = None
@@ -122,6 +136,23 @@ def _bodies():
         except (OSError, ValueError):
             raise AnalysisError("sa/refbodies.json missing: run tools/mkrefshape.py")
     return _BODIES
+
+
+def module_body_fn(tree):
+    """The module's own statements (not definitions, imports, docstring or the __main__ guard) as a synthetic function."""
+    body = []
+    for st in tree.body:
+        if isinstance(st, (ast.FunctionDef, ast.AsyncFunctionDef, ast.ClassDef, ast.Import, ast.ImportFrom)):
+            continue
+        if isinstance(st, ast.Expr) and isinstance(st.value, ast.Constant):
+            continue
+        if isinstance(st, ast.If) and "__name__" in ast.unparse(st.test):
+            continue
+        body.append(st)
+    fn = ast.FunctionDef(name="_module_body_", args=ast.arguments(posonlyargs=[], args=[], kwonlyargs=[], kw_defaults=[], defaults=[]),
+                         body=body or [ast.Pass()], decorator_list=[], lineno=1, col_offset=0)
+    ast.fix_missing_locations(fn)
+    return fn
 
 
 def build_bodies(repo):
@@ -149,6 +180,7 @@ def build_bodies(repo):
         for qual, fn in funcs.items():
             fn.decorator_list = []
             entry["bodies"][qual] = ast.unparse(fn)
+        entry["bodies"][MODULE_BODY] = ast.unparse(module_body_fn(tree))
         out[rel] = entry
     for modname, table in CURATED.items():
         rel = "sasmodels/%s.py" % modname
@@ -366,6 +398,8 @@ def _visible_keys(res, fn):
     params = {a.arg for a in fn.args.posonlyargs + fn.args.args + fn.args.kwonlyargs}
     imported = {(a.asname or a.name).split(".")[0] for n in ast.walk(fn) if isinstance(n, (ast.Import, ast.ImportFrom)) for a in n.names}
     local = alpha._bound(fn) - params - imported
+    if fn.name == "_module_body_":
+        local = set()          # the module's own statements bind module-level names: all of them are visible
     keys = set()
     for k in res.env:
         if k.startswith("__"):
@@ -474,7 +508,10 @@ def ref_rule(prop):
         for modname, qual in todo:
             rel = "sasmodels/%s.py" % modname
             mod = pf.module(rel)
-            fn = mod.func(qual)
+            if qual == MODULE_BODY:
+                fn = module_body_fn(ast.parse(mod.text))
+            else:
+                fn = mod.func(qual)
             ref_fn, known = reference_function(rel, qual)
             if ref_fn is None:
                 raise AnalysisError("no reference body for %s:%s (run tools/mkrefshape.py)" % (rel, qual))
